@@ -84,6 +84,13 @@ impl Service for TestService {
                 res.value = v.len() as u64;
             }
             Kind::Exit { code } => std::process::exit(code),
+            Kind::ExitLater { ms } => {
+                std::thread::spawn(move || {
+                    std::thread::sleep(Duration::from_millis(ms));
+                    std::process::exit(7);
+                });
+                res.value = ms;
+            }
             Kind::Large { n: _ } => {
                 res.value = fnv64(&req.payload);
                 let mut back = req.payload;
